@@ -68,7 +68,9 @@ def run_history(ctx, h, idx):
             except OSError:
                 hb = None
             now = time.time()
-            if hb != last_hb:
+            if hb != last_hb or hb is None:
+                # no heartbeat yet = the process is still starting up (loader, static initialisation under a sanitizer on a loaded
+                # machine): that is not "no progress"; only the wall-clock watchdog (inconclusive) bounds it
                 last_hb, last_change = hb, now
             # progress-based: no new observation for NO_PROGRESS_S while alive = hang (stacks attached); a run that is merely slow
             # is cut off after WALL_S and reported as inconclusive for this history, never as a verdict
